@@ -115,6 +115,8 @@ def validate(K, kernel, n, rnd, rounds=40):
 def run(ob, scratch):
     if ob['params'].get('kernel') == 'conv':
         return run_conv(ob, scratch)
+    if ob['params'].get('kernel') in ('leaf_get', 'leaf_range'):
+        return run_leaf(ob, scratch)
     t0 = time.time()
     P = ob['params']
     fam, kernel, n = P['family'], P['kernel'], P['n']
@@ -377,4 +379,209 @@ def run_conv(ob, scratch):
     res.update(verdict=verdict, detail=detail, cex=cex, paths=len(outs), solver_queries=it.stats['queries'] + q,
                solver_s=round(it.stats['solver_s'] + ts, 3), wall_s=round(time.time() - t0, 2), twin_refuted=reached > 0,
                instr=it.stats['instr'], witness={'accepting_paths': accepted_paths, 'rejecting_paths': rejected_paths})
+    return res
+
+
+# ---------------------------------------------------------------------------
+# leaf kernels of the native-key families (C01/C02/C05/C13): _bucket_get and Bucket_findRangeEnd as compiled,
+# on a leaf of n symbolic native keys (strictly ascending in the family order) and an unbounded-integer argument
+
+KEY_ERROR = 0xE0030
+VALUE_ERROR = 0xE0040
+FP = {'changed': 0xF0030, 'accessed': 0xF0040, 'ghostify': 0xF0050, 'setstate': 0xF0060, 'readCurrent': 0xF0080}
+
+
+def leaf_setup(module, fam, N, is_long, keys, vals, size, timeout):
+    it, mem, obj, out, err = conv_setup(module, N, is_long, timeout)
+    kb, ksigned = KEYT[fam[0]]
+    vb = KEYT[fam[1]][0] if fam[1] in KEYT else 64
+    g = mem.alloc(32, 'globals2')
+    for i, (name, val) in enumerate((('PyExc_KeyError', KEY_ERROR), ('PyExc_ValueError', VALUE_ERROR))):
+        mem.store(g + 8 * i, 8, llsym.bv(val, 64))
+        it.globals[name] = g + 8 * i
+    lay = module.layout('%struct.Bucket_s')
+    offs = lay[2]
+    b = mem.alloc(lay[0], 'bucket')
+    mem.store(b, 8, llsym.bv(1, 64))                       # ob_refcnt
+    mem.store(b + 8, 8, llsym.bv(0x7770000, 64))           # ob_type (never dereferenced by these kernels)
+    mem.store(b + offs[6], 4, llsym.bv(0, 32))             # state = UPTODATE, estimated_size = 0
+    mem.store(b + offs[7], 4, llsym.bv(size, 32))
+    mem.store(b + offs[8], 4, llsym.bv(len(keys), 32))
+    mem.store(b + offs[9], 8, llsym.bv(0, 64))             # next
+    ka = mem.alloc(max(size, 1) * kb // 8, 'keys')
+    va = mem.alloc(max(size, 1) * vb // 8, 'values')
+    for i, k in enumerate(keys):
+        mem.store(ka + i * kb // 8, kb // 8, k)
+    for i, v in enumerate(vals):
+        mem.store(va + i * vb // 8, vb // 8, v)
+    mem.store(b + offs[10], 8, llsym.bv(ka if size else 0, 64))
+    mem.store(b + offs[11], 8, llsym.bv(va if size else 0, 64))
+    capi = mem.alloc(module.layout('%struct.cPersistenceCAPIstruct')[0], 'cPersistenceCAPI')
+    coffs = module.layout('%struct.cPersistenceCAPIstruct')[2]
+    for name, idx in (('changed', 3), ('accessed', 4), ('ghostify', 5), ('setstate', 6), ('readCurrent', 8)):
+        mem.store(capi + coffs[idx], 8, llsym.bv(FP[name], 64))
+    gp = mem.alloc(8, 'capi-pointer')
+    mem.store(gp, 8, llsym.bv(capi, 64))
+    it.globals['cPersistenceCAPI'] = gp
+    log = mem.alloc(8, 'capi-log')
+    mem.store(log, 8, llsym.bv(0, 64))
+
+    def logged(bit):
+        def f(itp, args, m_, cond):
+            m_.store(log, 8, m_.load(log, 8) | llsym.bv(bit, 64))
+            return llsym.bv(0, 32)
+        return f
+    it.fptrs.update({FP['changed']: logged(1), FP['accessed']: logged(2), FP['ghostify']: logged(4), FP['setstate']: logged(8),
+                     FP['readCurrent']: logged(16)})
+    boxes = []
+
+    def from_long(itp, args, m_, cond):
+        p = m_.alloc(16, 'pylong')
+        m_.store(p, 8, args[0])
+        boxes.append(p)
+        return llsym.bv(p, 64)
+
+    def set_object(itp, args, m_, cond):
+        m_.store(err, 8, args[0])
+    it.externs.update(PyLong_FromLong=from_long, PyLong_FromLongLong=from_long, PyLong_FromUnsignedLongLong=from_long,
+                      PyLong_FromUnsignedLong=from_long, PyErr_SetObject=set_object)
+    return it, mem, dict(obj=obj, out=out, err=err, bucket=b, state=b + offs[6], keys=ka, values=va, log=log, kb=kb, vb=vb)
+
+
+def run_leaf(ob, scratch):
+    t0 = time.time()
+    P = ob['params']
+    fam, n, kernel = P['family'], P['n'], P['kernel']
+    res = {'id': ob['id'], 'names': ['n'] + ['k%d' % i for i in range(n)], 'twin_refuted': False, 'witness': None, 'twin_s': 0}
+    kb, ksigned = KEYT[fam[0]]
+    vb = KEYT[fam[1]][0]
+    mode = P.get('arg', 'word')
+    aw = z3.BitVec('n', kb)                         # the argument as a machine word of the key type (always representable)
+    if mode == 'word':
+        N = z3.BV2Int(aw, is_signed=ksigned)
+    else:
+        N = z3.IntVal(2 ** 70 if mode == 'big' else -2 ** 70)
+    is_long = z3.BoolVal(True)
+    keys = [z3.BitVec('k%d' % i, kb) for i in range(n)]
+    vals = [z3.BitVec('v%d' % i, vb) for i in range(n)]
+    ltk = (lambda a, b: a < b) if ksigned else z3.ULT
+    pre = [ltk(keys[i], keys[i + 1]) for i in range(n - 1)]
+    lo, hi = (-(1 << (kb - 1)), (1 << (kb - 1)) - 1) if ksigned else (0, (1 << kb) - 1)
+    try:
+        module = build_conv(fam, scratch)
+        it, mem, L = leaf_setup(module, fam, N, is_long, keys, vals, n + P.get('spare', 1), ob.get('timeout', 120))
+        if mode == 'word':
+            # CPython contract for an in-range int: the C value is the integer itself, no error (pure bit-vector reasoning)
+            ext = (z3.SignExt if ksigned else z3.ZeroExt)(64 - kb, aw) if kb < 64 else aw
+            same = lambda itp, args, m_, cond: ext
+
+            def ll_overflow(itp, args, m_, cond):
+                m_.store(itp.conc(args[1]), 4, llsym.bv(0, 32))
+                return ext
+            it.externs.update(PyLong_AsLong=same, PyLong_AsUnsignedLongLong=same, PyLong_AsLongLongAndOverflow=ll_overflow)
+        if kernel == 'leaf_get':
+            outs = it.run('_bucket_get', [llsym.bv(L['bucket'], 64), llsym.bv(L['obj'], 64), llsym.bv(P['has_key'], 32)], mem, pre)
+        else:
+            mem.store(L['out'], 4, llsym.bv(0x55555555, 32))
+            outs = it.run('Bucket_findRangeEnd', [llsym.bv(L['bucket'], 64), llsym.bv(L['obj'], 64), llsym.bv(P['low'], 32),
+                                                   llsym.bv(P['exclude'], 32), llsym.bv(L['out'], 64)], mem, pre)
+    except (llsym.Unsupported, llsym.Budget) as e:
+        res.update(verdict='inconclusive', detail='%s: %s' % (type(e).__name__, e), paths=0, solver_queries=0, solver_s=0, wall_s=time.time() - t0)
+        return res
+    s = z3.Solver()
+    s.add(*pre)
+    q, ts, cex, detail, reached = 0, 0.0, None, None, 0
+    for o in outs:
+        s.push()
+        s.add(*o.cond)
+        t1 = time.perf_counter()
+        feas = str(s.check())
+        q += 1
+        if feas != 'sat':
+            s.pop()
+            ts += time.perf_counter() - t1
+            if feas == 'unknown':
+                cex, detail = 'unknown', 'solver unknown on a path condition'
+                break
+            continue
+        if o.kind in ('assert', 'memory'):
+            cex, detail = s.model(), ('assertion reachable: ' if o.kind == 'assert' else 'memory error: ') + str(o.detail)
+            s.pop()
+            break
+        if o.kind == 'dead':
+            s.pop()
+            continue
+        reached += 1
+        e = o.mem.load(L['err'], 8)
+        state = o.mem.load(L['state'], 4)
+        unchanged = [o.mem.load(L['keys'] + i * kb // 8, kb // 8) == keys[i] for i in range(n)] + \
+                    [o.mem.load(L['values'] + i * vb // 8, vb // 8) == vals[i] for i in range(n)]
+        changed_called = (o.mem.load(L['log'], 8) & 1) != 0
+        representable = z3.BoolVal(mode == 'word')
+        found = [keys[i] == aw for i in range(n)] if mode == 'word' else [z3.BoolVal(False)] * n
+        anyfound = z3.Or(*found) if found else z3.BoolVal(False)
+        ret = o.ret
+        common = [state == 0, z3.Not(changed_called)] + unchanged     # pin released, leaf untouched, no change notification
+        if kernel == 'leaf_get':
+            # the returned object, if any, is one of the boxes PyLong_FromLong made on this path
+            retval = None
+            rs = z3.simplify(ret)
+            if z3.is_bv_value(rs) and rs.as_long() != 0:
+                retval = o.mem.load(rs.as_long(), 8)
+            if P['has_key'] == 0:
+                want = z3.And(z3.Implies(z3.Not(representable), z3.And(ret == 0, e == llsym.bv(TYPE_ERROR, 64))),
+                              z3.Implies(z3.And(representable, z3.Not(anyfound)), z3.And(ret == 0, e == llsym.bv(KEY_ERROR, 64))),
+                              *[z3.Implies(found[i], z3.And(ret != 0, e == 0,
+                                                           (retval == ((z3.SignExt if KEYT[fam[1]][1] else z3.ZeroExt)(64 - vb, vals[i]) if vb < 64 else vals[i]))
+                                                           if retval is not None else z3.BoolVal(False))) for i in range(n)])
+            else:
+                want = z3.And(z3.Implies(z3.Not(representable), z3.And(ret == 0, e == llsym.bv(KEY_ERROR, 64))),
+                              z3.Implies(representable, z3.And(ret != 0, e == 0,
+                                                               (retval == z3.If(anyfound, llsym.bv(P['has_key'], 64), llsym.bv(0, 64)))
+                                                               if retval is not None else z3.BoolVal(False))))
+        else:
+            off = o.mem.load(L['out'], 4)
+            low, excl = P['low'], P['exclude']
+            # documented result: 1 with *offset = index of the range end, 0 if no key qualifies, -1 on error
+            gt = (lambda a_, b_: a_ > b_) if ksigned else z3.UGT
+            ge = (lambda a_, b_: a_ >= b_) if ksigned else z3.UGE
+            if low:
+                cands = [(gt(keys[i], aw) if excl else ge(keys[i], aw)) for i in range(n)]
+                idx = [z3.And(cands[i], *[z3.Not(cands[j]) for j in range(i)]) for i in range(n)]      # first qualifying
+            else:
+                cands = [(gt(aw, keys[i]) if excl else ge(aw, keys[i])) for i in range(n)]
+                idx = [z3.And(cands[i], *[z3.Not(cands[j]) for j in range(i + 1, n)]) for i in range(n)]   # last qualifying
+            none = z3.And(*[z3.Not(c) for c in cands]) if cands else z3.BoolVal(True)
+            want = z3.And(z3.Implies(z3.Not(representable), z3.And(ret == llsym.bv(-1, 32), e != 0)),
+                          z3.Implies(z3.And(representable, none), z3.And(ret == 0, e == 0)),
+                          *[z3.Implies(z3.And(representable, idx[i]), z3.And(ret == 1, off == i, e == 0)) for i in range(n)])
+        r = str(s.check(z3.Not(z3.And(want, *common))))
+        q += 1
+        ts += time.perf_counter() - t1
+        if r == 'sat':
+            cex, detail = s.model(), '%s post-condition violated (result / error indicator / pin released / leaf untouched)' % kernel
+            s.pop()
+            break
+        if r != 'unsat':
+            cex, detail = 'unknown', 'solver unknown on the post-condition'
+            s.pop()
+            break
+        s.pop()
+    if cex == 'unknown':
+        verdict, cex = 'inconclusive', None
+    elif cex is not None:
+        verdict = 'counterexample'
+        mdl = cex
+        nv = mdl.eval(aw, model_completion=True).as_long()
+        cex = {'n': (nv - (1 << kb) if (ksigned and nv >> (kb - 1)) else nv) if mode == 'word' else (2 ** 70 if mode == 'big' else -2 ** 70)}
+        for i in range(n):
+            v = mdl.eval(keys[i], model_completion=True).as_long()
+            cex['k%d' % i] = v - (1 << kb) if (ksigned and v >> (kb - 1)) else v
+    elif reached == 0:
+        verdict, detail = 'inconclusive', 'vacuous: no feasible returning path'
+    else:
+        verdict = 'confirmed'
+    res.update(verdict=verdict, detail=detail, cex=cex, paths=len(outs), solver_queries=it.stats['queries'] + q,
+               solver_s=round(it.stats['solver_s'] + ts, 3), wall_s=round(time.time() - t0, 2), twin_refuted=reached > 0,
+               instr=it.stats['instr'], witness={'returning_paths': reached})
     return res
